@@ -354,8 +354,11 @@ impl LdapResultExt {
             .and_then(|t| t.match_id(Types::Enumerated as u64))
             .and_then(|t| t.expect_primitive())?;
         // A result code which doesn't fit must not be truncated: a refusal could read as success.
+        // An ENUMERATED without content octets is not a result code, and certainly not success.
         let rc = match parse_uint(rc_octets.as_slice()) {
-            Ok((_, rc)) if rc_octets.len() <= 8 => u32::try_from(rc).ok()?,
+            Ok((_, rc)) if !rc_octets.is_empty() && rc_octets.len() <= 8 => {
+                u32::try_from(rc).ok()?
+            }
             _ => return None,
         };
         let matched = String::from_utf8(tags.next()?.expect_primitive()?).ok()?;
